@@ -128,6 +128,7 @@ def model_inputs(spec, m, xvar, cvar=None):
 
 
 def real_call(spec, method, P, x, c):
+    P = spec.replay_P(P)
     Pj = [jnp.asarray(p, jnp.float64) for p in P]
     xj = jnp.asarray(x, jnp.float64)
     cj = None if c is None else jnp.asarray(c, jnp.float64)
@@ -155,6 +156,7 @@ def replay_logdet(spec_name, direction, P, x, c=None, kappa=None):
     spec = zoo.get(spec_name)
     kappa = kappa or spec.kappa
     try:
+        P = spec.replay_P(P)
         Pj = [jnp.asarray(p, jnp.float64) for p in P]
         xj = jnp.asarray(x, jnp.float64)
         cj = None if c is None else jnp.asarray(c, jnp.float64)
@@ -200,6 +202,10 @@ def box_constraints(spec, var, cvar=None, big=50, sep=Fraction(1, 20)):
     return out
 
 
+def _is_eq(g):
+    return is_z(g) and z3.is_eq(g) and not z3.is_bool(g.arg(0))
+
+
 def witness_search(spec, kind, direction, case, build, var, acc, name, first=None):
     """`build(concrete_P: bool, extra_assume) -> (ctx, assume, goals:list[z3 bool], subst)`.
     Tries: the model of the failed proof, the boxed query, the query with parameters fixed to the instance's
@@ -209,19 +215,28 @@ def witness_search(spec, kind, direction, case, build, var, acc, name, first=Non
     if first is not None:
         cands.append(("model of the failed query", first))
     for concrete in (False, True):
-        for boxed in (True, False):
-            if len(cands) >= 1 and cands[-1][0] != "model of the failed query":
-                break
-            try:
-                ctx, assume, goals, subst = build(concrete)
-            except Exception as e:  # noqa
-                continue
-            extra = box_constraints(spec, var, spec.c_sym) if boxed else []
-            g = z3.And(*[toz(x) for x in goals]) if goals else z3.BoolVal(True)
-            st, m = check(ctx, assume + extra, g, name="", subst=subst, rlimit=30_000_000, timeout=60_000)
-            if st == "sat":
-                cands.append((f"{'instance parameters' if concrete else 'symbolic parameters'}, {'boxed' if boxed else 'unboxed'}", (m, concrete)))
-        if len(cands) > 1:
+        try:
+            ctx, assume, goals, subst = build(concrete)
+        except Exception as e:  # noqa
+            continue
+        oks = [toz(g) for g in goals if not _is_eq(g)]
+        eqs = [toz(g) for g in goals if _is_eq(g)]
+        for strong in (True, False):
+            for boxed in (True, False):
+                extra = box_constraints(spec, var, spec.c_sym) if boxed else []
+                if strong:
+                    if not eqs:
+                        continue
+                    # a definite wrong value: everything defined, some equation false
+                    side = [c for c in ctx.side if is_z(c)]
+                    g = z3.Or(z3.Not(z3.And(*(oks + side))) if (oks or side) else z3.BoolVal(False), z3.And(*eqs))
+                else:
+                    g = z3.And(*(oks + eqs)) if (oks or eqs) else z3.BoolVal(True)
+                st, m = check(ctx, assume + extra, g, name="", subst=subst, timeout=30_000)
+                if st == "sat":
+                    cands.append((f"{'instance' if concrete else 'symbolic'} parameters, {'wrong value' if strong else 'undefined or wrong'}, {'boxed' if boxed else 'unboxed'}", (m, concrete)))
+                    break
+        if len(cands) >= 4:
             break
     for label, item in cands:
         m, concrete = item if isinstance(item, tuple) else (item, False)
@@ -230,12 +245,14 @@ def witness_search(spec, kind, direction, case, build, var, acc, name, first=Non
             if concrete:
                 P = [np.asarray(p) for p in spec.P_ex]
             tried += 1
-            ok, msg = REPLAYS[kind](spec.name, direction, [np.asarray(p).tolist() for p in P], np.asarray(x).tolist(), None if c is None else np.asarray(c).tolist())
+            ok, msg = REPLAYS[kind](spec.key, direction, [np.asarray(p).tolist() for p in P], np.asarray(x).tolist(), None if c is None else np.asarray(c).tolist())
         except Exception as e:  # noqa
+            import traceback
+            traceback.print_exc()
             continue
         if ok:
             return rec(name, "violation", detail=f"[{label}] case {case.name}: {msg}",
-                       replay=dict(func="bijreplay:run", kwargs=dict(kind=kind, spec_name=spec.name, direction=direction,
+                       replay=dict(func="bijreplay:run", kwargs=dict(kind=kind, spec_name=spec.key, direction=direction,
                                                                     P=[np.asarray(p).tolist() for p in P], x=np.asarray(x).tolist(),
                                                                     c=None if c is None else np.asarray(c).tolist())), **acc.stats())
     return rec(name, "inconclusive", detail=f"case {case.name}: not discharged and no replayable witness among {tried} candidates", **acc.stats())
@@ -244,7 +261,7 @@ def witness_search(spec, kind, direction, case, build, var, acc, name, first=Non
 # ----------------------------------------------------------------------------------------
 # C01 obligations
 # ----------------------------------------------------------------------------------------
-def _stage(spec, case, direction, concrete=False, ctx=None):
+def _stage(spec, case, direction, concrete=False, ctx=None, nocut=False):
     """interprets stage 1 (a), lemma, cut, stage 2 (b) and the `_and_log_det` variant of a.
     returns dict with everything needed for goals"""
     ctx = ctx or Ctx()
@@ -268,7 +285,7 @@ def _stage(spec, case, direction, concrete=False, ctx=None):
     args = list(Psym) + [var] + ([spec.c_sym] if spec.cond_shape is not None else [])
     mid = I.run(ja, *args)[0]
     mid2, ld = I.run(jal, *args)
-    if case.lemma:
+    if case.lemma and not nocut:
         # staged cut: stage 2 is interpreted on fresh variables constrained by the (separately proved) image lemma
         lem_mid = [toz(l) for l in case.lemma(np.vectorize(lambda v: toreal(split(v)[0]), otypes=[object])(mid))]
         fresh = fresh_like("m" if direction == "fwd" else "w", mid)
@@ -305,7 +322,7 @@ def ob_roundtrip(spec_name, direction, case_name):
         return [rec(base, "error", detail=f"vacuous case assumption ({st})", **acc.stats())]
 
     def build(concrete):
-        S2 = _stage(spec, case, direction, concrete=concrete)
+        S2 = _stage(spec, case, direction, concrete=concrete, nocut=True)
         goals = []
         for l, r in zip(elems(S2["back"]), elems(S2["var"])):
             lt, lo, li = split(l)
@@ -386,7 +403,7 @@ def ob_logdet_fwd(spec_name, case_name):
     ldshape = tuple(jal.out_avals[1].shape)
     if ldshape != ():
         return [rec(base, "violation", detail=f"log-det aval shape {ldshape} != ()",
-                    replay=dict(func="bijreplay:run", kwargs=dict(kind="logdet", spec_name=spec.name, direction="fwd",
+                    replay=dict(func="bijreplay:run", kwargs=dict(kind="logdet", spec_name=spec.key, direction="fwd",
                                                                  P=[np.asarray(p).tolist() for p in spec.P_ex], x=np.asarray(spec.x_ex).tolist(),
                                                                  c=None if spec.c_ex is None else np.asarray(spec.c_ex).tolist())))]
 
@@ -470,7 +487,7 @@ def ob_logdet_inv(spec_name, case_name):
     ji, jil, jfl = traced(spec, "inverse"), traced(spec, "inverse_and_log_det"), traced(spec, "transform_and_log_det")
     if tuple(jil.out_avals[1].shape) != ():
         return [rec(base, "violation", detail=f"inverse log-det aval shape {tuple(jil.out_avals[1].shape)} != ()",
-                    replay=dict(func="bijreplay:run", kwargs=dict(kind="logdet", spec_name=spec.name, direction="inv",
+                    replay=dict(func="bijreplay:run", kwargs=dict(kind="logdet", spec_name=spec.key, direction="inv",
                                                                  P=[np.asarray(p).tolist() for p in spec.P_ex], x=np.asarray(spec.x_ex).tolist(),
                                                                  c=None if spec.c_ex is None else np.asarray(spec.c_ex).tolist())))]
 
@@ -500,12 +517,16 @@ def ob_logdet_inv(spec_name, case_name):
             if lem_ok:
                 DEC.add(*lem)
         xi2, ldi = I.run(jil, *Psym, spec.y_sym, *cargs)
-        fresh = fresh_like("w", xi)
-        lem_fresh = [toz(l) for l in cs.lemma(fresh)] if (cs.lemma and lem_ok) else []
-        set_path(assume + lem_fresh, ctx.facts)
+        if cs.lemma and lem_ok and not concrete:
+            fresh = fresh_like("w", xi)
+            lem_fresh = [toz(l) for l in cs.lemma(fresh)]
+            set_path(assume + lem_fresh, ctx.facts)
+            sb = subst_pairs(fresh, xi)
+        else:
+            fresh, sb = xi, None
         _, ldf = I.run(jfl, *Psym, fresh, *cargs)
         set_path(None)
-        return ctx, assume, ldi, ldf, subst_pairs(fresh, xi)
+        return ctx, assume, ldi, ldf, sb
 
     try:
         ctx, assume, ldi, ldf, sb = run()
